@@ -70,8 +70,9 @@ impl<O: DataOrder> LoadStore<O> for RawU8 {
 
 impl<O: DataOrder> LoadStore<O> for RawU16 {
     fn load(buffer: &[u8], index: usize) -> Option<Self> {
-        buffer
-            .get(index * 2..)
+        index
+            .checked_mul(2)
+            .and_then(|start| buffer.get(start..))
             .and_then(|buffer| buffer.get(0..2))
             .map(|slice| {
                 let bytes = slice.try_into().unwrap();
@@ -93,8 +94,9 @@ impl<O: DataOrder> LoadStore<O> for RawU16 {
             self.to_le_bytes()
         };
 
-        buffer
-            .get_mut(index * 2..)
+        index
+            .checked_mul(2)
+            .and_then(|start| buffer.get_mut(start..))
             .and_then(|buffer| buffer.get_mut(0..2))
             .ok_or(OutOfBoundsError)
             .map(|buffer| buffer.copy_from_slice(&bytes))
@@ -103,8 +105,9 @@ impl<O: DataOrder> LoadStore<O> for RawU16 {
 
 impl<O: DataOrder> LoadStore<O> for RawU24 {
     fn load(buffer: &[u8], index: usize) -> Option<Self> {
-        buffer
-            .get(index * 3..)
+        index
+            .checked_mul(3)
+            .and_then(|start| buffer.get(start..))
             .and_then(|buffer| buffer.get(0..3))
             .map(|slice| {
                 let bytes: [_; 3] = slice.try_into().unwrap();
@@ -130,8 +133,9 @@ impl<O: DataOrder> LoadStore<O> for RawU24 {
             self.to_le_bytes()
         };
 
-        buffer
-            .get_mut(index * 3..)
+        index
+            .checked_mul(3)
+            .and_then(|start| buffer.get_mut(start..))
             .and_then(|buffer| buffer.get_mut(0..3))
             .ok_or(OutOfBoundsError)
             .map(|buffer| buffer.copy_from_slice(&bytes))
@@ -140,8 +144,9 @@ impl<O: DataOrder> LoadStore<O> for RawU24 {
 
 impl<O: DataOrder> LoadStore<O> for RawU32 {
     fn load(buffer: &[u8], index: usize) -> Option<Self> {
-        buffer
-            .get(index * 4..)
+        index
+            .checked_mul(4)
+            .and_then(|start| buffer.get(start..))
             .and_then(|buffer| buffer.get(0..4))
             .map(|slice| {
                 let bytes = slice.try_into().unwrap();
@@ -163,8 +168,9 @@ impl<O: DataOrder> LoadStore<O> for RawU32 {
             self.to_le_bytes()
         };
 
-        buffer
-            .get_mut(index * 4..)
+        index
+            .checked_mul(4)
+            .and_then(|start| buffer.get_mut(start..))
             .and_then(|buffer| buffer.get_mut(0..4))
             .ok_or(OutOfBoundsError)
             .map(|buffer| buffer.copy_from_slice(&bytes))
